@@ -57,6 +57,11 @@ def run_one(args):
             timeout=600,
         )
         out = r.stdout + r.stderr
+        if mut.get("expect") == "ok":
+            # a behaviour-preserving rewrite: the check must stay silent
+            if r.returncode == 0:
+                return mut["id"], "CAUGHT", "exit 0 as expected (equivalent rewrite accepted)"
+            return mut["id"], "FALSE-ALARM", "exit {} on a behaviour-preserving rewrite: {}".format(r.returncode, out[-400:])
         if r.returncode == 2 and mut.get("expect") == "analysis-error":
             return mut["id"], "CAUGHT", "exit 2 as expected"
         if r.returncode != 1:
